@@ -45,3 +45,7 @@ where
         (heuristic_ctx.statistics().generation as Float / self.limit as Float).min(1.)
     }
 }
+
+#[cfg(kani)]
+#[path = "/verif/kani/rosomaxa/max_generation_proofs.rs"]
+mod verif_kani_proofs;
